@@ -48,6 +48,8 @@ def sessions(tier: str, seed: int, kinds=cr.vloop.CLIENTS):
             for cuts in segs:
                 rec, _ = cr.receive_session(kind, packets, cr.cut(stream, cuts), recv_cb=cb,
                                             sample_after=(cb_name != "slow" and len(cuts) < 40))
+                if kind == "waveshare":
+                    rec["canonical"] = False       # noise runs are not packets of the serial discipline: the model decides
                 recs.append(rec)
                 shape = "whole" if not cuts else "bytewise" if len(cuts) == len(stream) - 1 else f"{len(cuts)}-cut"
                 meta.append((kind, cb_name, shape, cuts[:8]))
